@@ -1,5 +1,5 @@
 (* C11 — SimplexDownhill: the reported solution IS the first vertex of the sorted simplex (hence its value is the least vertex
-   value), after init and after every step — provided some initial vertex is below the literal.  Over Q, axiom-free. *)
+   value), after init (as repaired by d2acfe00) and after every step.  Over Q, axiom-free. *)
 From Coq Require Import List Arith Bool QArith Lia Lqa Permutation Sorted.
 From SharkV Require Import C11Model C11DirectModel C11Proofs C11SimplexProofs.
 Import ListNotations.
@@ -210,28 +210,19 @@ Qed.
 
 (* ---------------------------------------------------------------- init *)
 Lemma init_fold_shape (f : pvec Q -> Q) start : forall js st,
-  fold_left (init_step QO f start) js st =
+  fold_left (sd_init_step QO f start) js st =
   mkSd (sd_simplex st ++ map (fun j => sd_eval f (sd_vertex QO start j)) js)
        (fold_left (sd_track QO) (map (fun j => sd_eval f (sd_vertex QO start j)) js) (sd_best st)).
 Proof.
   induction js as [|j js IH]; intro st; cbn [fold_left map].
   - rewrite app_nil_r. destruct st; reflexivity.
-  - rewrite IH. unfold init_step. cbn [sd_simplex sd_best]. rewrite <- app_assoc. reflexivity.
+  - rewrite IH. unfold sd_init_step. cbn [sd_simplex sd_best]. rewrite <- app_assoc. reflexivity.
 Qed.
 
-Theorem init_best_is_first (f : pvec Q -> Q) big p0 start :
-  (exists j, (j <= length start)%nat /\ f (sd_vertex QO start j) < big) ->
-  best_is_first (sd_init QO f big p0 start).
+Theorem init_best_is_first (f : pvec Q -> Q) start : best_is_first (sd_init QO f start).
 Proof.
-  intros (j & Lj & Tj). unfold best_is_first. rewrite sd_init_fold, init_fold_shape. cbn [sd_simplex sd_best app].
-  set (vs := map (fun j => sd_eval f (sd_vertex QO start j)) (seq 0 (S (length start)))).
-  assert (In (sd_eval f (sd_vertex QO start j)) vs) as I by (apply (in_map (fun j => sd_eval f (sd_vertex QO start j))), in_seq; lia).
-  rewrite track_amin.
-  destruct vs as [|v0 vt] eqn:Ev; [destruct I|].
-  rewrite hd_isort. cbn [amin].
-  assert (fst (amin v0 vt) <= fst (sd_eval f (sd_vertex QO start j))) as K.
-  { destruct I as [<-|I]; [apply amin_le_head|]. pose proof (amin_le v0 vt) as F. rewrite Forall_forall in F. apply F, I. }
-  cbn [sd_eval fst] in K. rewrite (proj2 (ltb_true _ _)); [reflexivity|]. cbn [fst]. lra.
+  unfold best_is_first. rewrite sd_init_fold, init_fold_shape. cbn [sd_simplex sd_best map app].
+  rewrite track_amin, hd_isort. reflexivity.
 Qed.
 
 Theorem run_best_is_first (f : pvec Q -> Q) n : forall st,
@@ -242,16 +233,16 @@ Proof.
 Qed.
 
 (* the reported solution is the first vertex of the sorted simplex: a vertex, with the least value *)
-Theorem sd_reported_is_best_vertex (f : pvec Q -> Q) big p0 start n :
-  (1 <= length start)%nat -> (exists j, (j <= length start)%nat /\ f (sd_vertex QO start j) < big) ->
-  let st := sd_run QO f n (sd_init QO f big p0 start) in
+Theorem sd_reported_is_best_vertex (f : pvec Q -> Q) start n :
+  (1 <= length start)%nat ->
+  let st := sd_run QO f n (sd_init QO f start) in
   sd_best st = hd dflt (isort QO (sd_simplex st)) /\ In (sd_best st) (sd_simplex st) /\
   fst (sd_best st) = sd_minval sq ex pw (sd_simplex st) /\ Forall (fun v => fst (sd_best st) <= fst v) (sd_simplex st).
 Proof.
-  intros Ld E. cbv zeta.
-  assert (2 <= length (sd_simplex (sd_init QO f big p0 start)))%nat as L0 by (rewrite init_length; lia).
-  pose proof (@run_best_is_first f n _ L0 (@init_best_is_first f big p0 start E)) as B. unfold best_is_first in B.
-  set (st := sd_run QO f n (sd_init QO f big p0 start)) in *.
+  intros Ld. cbv zeta.
+  assert (2 <= length (sd_simplex (sd_init QO f start)))%nat as L0 by (rewrite init_length; lia).
+  pose proof (@run_best_is_first f n _ L0 (init_best_is_first f start)) as B. unfold best_is_first in B.
+  set (st := sd_run QO f n (sd_init QO f start)) in *.
   assert (2 <= length (sd_simplex st))%nat as Ln by (unfold st; rewrite run_length; exact L0).
   split; [exact B|].
   assert (sd_simplex st <> []) as NE by (intro Z; rewrite Z in Ln; cbn in Ln; lia).
